@@ -364,6 +364,9 @@ class Machine:
                 self.labels.add("while_first_action")
             self.fresh = False
             while True:
+                if c == "false":
+                    self.labels.add("while_const_false")
+                    break
                 if c != "true" and not self.cond(c, env):
                     break
                 r = yield from self.exec_block(s["body"], env)
